@@ -299,23 +299,37 @@ Theorem C16_tree_destroy_all_partial :
   clean h /\ h_live h = [1; 2; 20] /\ h_bad (tree_node_destroy_all h a_subtree) <> [].
 Proof. exact tree_destroy_all_partial. Qed.
 Print Assumptions C16_tree_destroy_all_partial.
-(* the embedded document of wbxml_tree_clb_wbxml_characters (registered known finding P9) *)
-Theorem C16_embedded_characters_heap : forall fails parsable,
-  let '(h, res, ch) := embedded_characters (heap0 fails) parsable in
+(* the embedded document of wbxml_tree_clb_wbxml_characters.  `embedded_characters true` = the code with finding P9 (every
+   failure of the embedded parse, out of memory included, taken as "not parsable"); `false` = the repair
+   props/C16/P9-fix.patch (NOT_ENOUGH_MEMORY is reported) *)
+Theorem C16_embedded_characters_heap : forall old fails parsable,
+  let '(h, res, ch) := embedded_characters old (heap0 fails) parsable in
   clean h /\ leaked h (emb_children_blocks ch) = [] /\ all_live h (emb_children_blocks ch) = true /\
   (res = EmbError <-> ch = None).
 Proof. exact embedded_characters_heap_ok. Qed.
 Print Assumptions C16_embedded_characters_heap.
 Theorem C16_embedded_characters_swallow_refuted :
-  exists k, snd (fst (embedded_characters (heap0 (single k)) true)) = EmbText /\
-            snd (fst (embedded_characters (heap0 nofail) true)) = EmbTree.
+  exists k, snd (fst (embedded_characters true (heap0 (single k)) true)) = EmbText /\
+            snd (fst (embedded_characters true (heap0 nofail) true)) = EmbTree.
 Proof. exact embedded_characters_swallow_refuted. Qed.
 Print Assumptions C16_embedded_characters_swallow_refuted.
 Theorem C16_embedded_characters_swallowed_exactly : forall fails,
-  snd (fst (embedded_characters (heap0 fails) true)) = EmbText ->
+  snd (fst (embedded_characters true (heap0 fails) true)) = EmbText ->
   nth_error fails 0 = Some true \/ (nth_error fails 0 = Some false /\ nth_error fails 1 = Some true).
 Proof. exact embedded_characters_swallowed_exactly. Qed.
 Print Assumptions C16_embedded_characters_swallowed_exactly.
+(* repaired: for EVERY oracle a parsable embedded document becomes the tree node or the run reports an error (and then
+   some request was refused) — never text; content that is not WBXML never becomes a tree *)
+Theorem C16_embedded_characters_fixed : forall fails,
+  snd (fst (embedded_characters false (heap0 fails) true)) <> EmbText /\
+  (snd (fst (embedded_characters false (heap0 fails) true)) = EmbTree \/
+   (snd (fst (embedded_characters false (heap0 fails) true)) = EmbError /\ exists k, nth_error fails k = Some true)).
+Proof. exact embedded_characters_fixed_ok. Qed.
+Print Assumptions C16_embedded_characters_fixed.
+Theorem C16_embedded_characters_fixed_not_parsable : forall fails,
+  snd (fst (embedded_characters false (heap0 fails) false)) <> EmbTree.
+Proof. exact embedded_characters_fixed_not_parsable. Qed.
+Print Assumptions C16_embedded_characters_fixed_not_parsable.
 
 (* ---- the trace checker used on the recorded alloc / free / realloc traces ---- *)
 Theorem C16_trace_ok_sound : forall t, trace_ok t = true -> disciplined [] t.
